@@ -91,7 +91,7 @@ impl Property for C17 {
     fn components_stubbed(&self) -> Vec<&'static str> { vec!["no connection/shards: the executor is driven directly, as a shard actor drives it", "clock: VirtualTime set by the harness"] }
     fn assumptions(&self) -> Vec<&'static str> { vec!["multi-step scripts that write and then raise are not generated (Redis does not roll those back either); a single-call script stands for its inner command", "a key past its deadline is not part of the visible keyspace, whether or not it was evicted yet"] }
     fn required_probes(&self) -> Vec<&'static str> { vec!["error_reply_on_existing_key", "readonly_on_existing_key", "script_call", "two_key_command"] }
-    fn runs(&self, tier: Tier) -> u64 { match tier { Tier::Quick => 6000, Tier::Thorough => 600_000 } }
+    fn runs(&self, tier: Tier) -> u64 { match tier { Tier::Quick => 20000, Tier::Thorough => 600_000 } }
 
     fn run(&self, src: &mut Src, ctx: &RunCtx) -> RunReport {
         let mut rep = RunReport::default();
@@ -102,6 +102,23 @@ impl Property for C17 {
         ex.set_simulation_start_epoch(1_700_000_000);
         ex.set_simulation_start_epoch_ms(1_700_000_000_000);
         let mut now = 0u64;
+        // prelude: small values of every type, half of them with a TTL, so that failing multi-key commands
+        // meet sources that are about to become empty and destinations of the wrong type early in a run
+        let bb = |s: &str| s.as_bytes().to_vec();
+        let mut prelude: Vec<Cmd> = Vec::new();
+        for i in 0..3 {
+            if !src.chance(1, 2) { continue; }
+            let k = bb(&format!("k{}", i));
+            match src.below(5) {
+                0 => prelude.push(vec![bb("SET"), k.clone(), bb("16")]),
+                1 => { let mut c = vec![bb("RPUSH"), k.clone(), bb("a")]; if src.chance(1, 2) { c.push(bb("b")); } prelude.push(c); }
+                2 => prelude.push(vec![bb("SADD"), k.clone(), bb("a")]),
+                3 => prelude.push(vec![bb("HSET"), k.clone(), bb("f"), bb("1")]),
+                _ => prelude.push(vec![bb("ZADD"), k.clone(), bb("1"), bb("a")]),
+            }
+            if src.chance(1, 2) { prelude.push(vec![bb("PEXPIRE"), k, bb("10000")]); }
+        }
+        for c in &prelude { if let Ok(cmd) = parse_cmd(c) { let _ = ex.execute(&cmd); } }
         let steps = src.list(40, 29, 30, |s| (s.below(10), s.below(6)));
         let mut shown: Vec<String> = Vec::new();
         let mut fp = 0u64;
